@@ -1339,7 +1339,11 @@ class Interp:
                     if not -len(base) <= j_ < len(base):
                         raise FragmentFault(f"index {j_} out of range for a tensor of length {len(base)}")
                     return base[j_]
-                return take(idx)
+                r_ = take(idx)
+                if type(base).__name__ == "T" and type(r_).__name__ != "T" and isinstance(r_, list):
+                    from .listnp import wrap as _wrap
+                    r_ = _wrap(r_)  # indexing a tensor with a python list of positions gives a tensor
+                return r_
             if isinstance(base, (list, tuple)) and isinstance(idx, Obj) and idx.name == "slice" and "stop" in idx.attrs:
                 g_ = lambda x: None if x is None else int(to_poly(x).const_value())
                 r_ = list(base[slice(g_(idx.attrs.get("start")), g_(idx.attrs.get("stop")), g_(idx.attrs.get("step")))])
